@@ -1082,6 +1082,7 @@ def check_dates(ctx, model, falcon, quick):
         mcases += [[42, True, dt_fields(d), off], [44, dt_fields(d), off]]
     mouts = model.run_many(mcases)
     corr = None
+    written = []
     for i, d in enumerate(dts):
         mtext, mutc = mouts[2 * i], m_date(mouts[2 * i + 1])
         attr = rng.choice(['last_modified', 'expires'])
@@ -1112,6 +1113,7 @@ def check_dates(ctx, model, falcon, quick):
                  'year-below-1000' if want.year < 1000 else 'other')
         if mutc is not None and tuple(dt_fields(want)) != mutc and corr is None:
             corr = {'what': 'to_utc model differs from datetime.astimezone', 'datetime': repr(d), 'model': mutc}
+        written.append((d, attr, text, want))
         for stack, mk in (('wsgi', mk_wsgi), ('asgi', mk_asgi)):
             acc, rname = rng.choice(DATE_ACCESSORS)
             req = mk(falcon, [(rand_case(rng, rname), text)])
@@ -1123,6 +1125,14 @@ def check_dates(ctx, model, falcon, quick):
                               {'what': 'resp.%s = dt; req.%s of the header text is not dt' % (attr, acc), 'stack': stack,
                                'accessor': acc, 'setter': attr, 'written': repr(d), 'header_text': text,
                                'read': repr(a), 'expected': repr(want), 'shape': shape}, key='date-rt2-%s-%s' % (shape, stack))
+    # what the setters wrote must be a strict RFC 9110 IMF-fixdate of that instant (proved for the model:
+    # C09_date_written_is_imf_fixdate)
+    for (d, attr, text, want), o in zip(written, model.run_many([[45, w[2]] for w in written])):
+        if m_date(o) != tuple(dt_fields(want)):
+            ctx.violation('response-date-not-imf-fixdate',
+                          {'what': 'resp.%s = dt wrote a header that is not the IMF-fixdate of dt' % attr, 'setter': attr,
+                           'written': repr(d), 'header_text': text, 'rfc_reading': repr(m_date(o)),
+                           'expected': repr(want)}, key='date-not-imf')
     if corr:
         ctx.violation('correspondence-broken', dict(corr, broken='C09.date_setter_corr'),
                       found_input=any(v['found_input'] for v in ctx.violations), key='corr-date-setter')
